@@ -138,3 +138,29 @@ def inline_adjacent_temps(tree) -> int:
                         if not isinstance(st, (ast.FunctionDef, ast.AsyncFunctionDef, ast.ClassDef)):
                             stack.append(st)
     return total
+
+
+_MIRROR = {ast.Lt: ast.Gt, ast.Gt: ast.Lt, ast.LtE: ast.GtE, ast.GtE: ast.LtE, ast.Eq: ast.Eq, ast.NotEq: ast.NotEq}
+
+
+def _rank(e) -> int:
+    """which operand of a comparison is written first in the canonical form: a column / key selection x['name'] before anything
+    else, a literal last."""
+    if isinstance(e, ast.Subscript) and isinstance(e.slice, ast.Constant) and isinstance(e.slice.value, str):
+        return 0
+    if isinstance(e, ast.Constant) or (isinstance(e, ast.UnaryOp) and isinstance(e.operand, ast.Constant)):
+        return 2
+    return 1
+
+
+def mirror_comparisons(tree) -> int:
+    """`'d' == m['type']` -> `m['type'] == 'd'`, `0 < x` -> `x > 0`, `a.name == m['asset']` -> `m['asset'] == a.name`: one spelling of a
+    single-operator comparison for all rules (the operands of such a comparison in this package are names, attributes, subscripts,
+    literals and numpy / pandas expressions: evaluating them in the other order gives the same values)."""
+    n = 0
+    for c in ast.walk(tree):
+        if isinstance(c, ast.Compare) and len(c.ops) == 1 and type(c.ops[0]) in _MIRROR and _rank(c.left) > _rank(c.comparators[0]):
+            c.left, c.comparators[0] = c.comparators[0], c.left
+            c.ops[0] = _MIRROR[type(c.ops[0])]()
+            n += 1
+    return n
